@@ -184,6 +184,12 @@ LeavesG6 ==
         CmpC("ge", At(x, "n"), At(SubE(2, CmpC("eq", y, At(x, "ref")), "the"), "m")),
         CmpC("eq", SubE(2, CmpC("eq", At(y, "n"), At(x, "m")), "an"), At(x, "ref")),
         InC(SubE(2, CmpC("lt", At(y, "n"), At(x, "n")), "an"), At(x, "refs"), "contains") >>
+  \* a correlated operand whose condition mentions a third variable z that an earlier conjunct binds to several values,
+  \* while the operands' own variables are still unbound
+  \o << AndC(CmpC("ge", At(V(3), "m"), LitI(1)),
+             CmpC("eq", At(x, "ref"), SubE(2, CmpC("lt", At(y, "n"), At(V(3), "m")), "an")), "fn"),
+        AndC(Truth(At(V(3), "items")),
+             CmpC("eq", SubE(2, CmpC("ge", At(y, "m"), At(V(3), "n")), "an"), At(x, "ref")), "fn") >>
   \* plain conditions to combine with
   \o << CmpC("eq", At(x, "n"), At(y, "m")), CmpC("ge", At(x, "n"), LitI(1)), CmpC("ne", At(y, "n"), LitI(0)) >>
 
